@@ -593,6 +593,30 @@ def decodeArgs (bs : Bytes) (env : Env) (expected : List Ty) (specMu : Bool := t
   | .err k => .err k
   | .panic s => .panic s
 
+/-- Is some expected tuple (record with ids 0..n-1, n > 0) matched against a wire record that does not start
+with the ids 0..n-1?  Native tuple visitors pair components by position and reject such a wire record even
+when the missing components are optional (known finding KF-C08-tuple-nonpositional). -/
+def tupleNonPositional (env : Env) : Nat → Ty → Ty → Bool
+  | 0, _, _ => false
+  | fuel + 1, w, e =>
+    match Sub.traceFull env w, Sub.traceFull env e with
+    | some (.opt w'), some (.opt e') => tupleNonPositional env fuel w' e'
+    | some w', some (.opt e') => tupleNonPositional env fuel w' e'
+    | some (.vec w'), some (.vec e') => tupleNonPositional env fuel w' e'
+    | some (.record wfs), some (.record efs) =>
+      let eids := efs.toList.map (·.1.getId)
+      let wids := wfs.toList.map (·.1.getId)
+      let isTuple := eids ≠ [] ∧ eids = List.range eids.length
+      (isTuple ∧ wids.take eids.length ≠ (List.range eids.length).take wids.length) ||
+        efs.toList.any fun p => match Sub.lookupF wfs p.1.getId with
+          | some wt => tupleNonPositional env fuel wt p.2
+          | none => false
+    | some (.variant wfs), some (.variant efs) =>
+      efs.toList.any fun p => match Sub.lookupF wfs p.1.getId with
+        | some wt => tupleNonPositional env fuel wt p.2
+        | none => false
+    | _, _ => false
+
 /-- decode a message at its own types (`IDLArgs::from_bytes`) -/
 def decodeSelf (bs : Bytes) (specMu : Bool := true) (specRefs : Bool := true) : Outcome (List Val) :=
   match parseHeader bs with
